@@ -37,6 +37,8 @@ type Outcome struct {
 	served     bool
 }
 
+const keyStateLock = "C10/close/deadlock:state-lock-held-across-write"
+
 const (
 	watchdog     = 20 * time.Second
 	realDeadline = 250 * time.Millisecond
@@ -494,6 +496,9 @@ func runForced(sc *Scenario, choose func(depth int, enabled []int) int) *Outcome
 		}
 	}
 	xmpp.VerifSetHook(f.c.hook)
+	// one actor moves at a time: whoever enters a connection write while the
+	// state mutex is locked is holding that mutex itself across the write
+	r.watch.Store(true)
 	for depth := 0; !f.aborted && depth < 400; depth++ {
 		var en []int
 		for i := range sc.Actors {
@@ -513,6 +518,16 @@ func runForced(sc *Scenario, choose func(depth int, enabled []int) int) *Outcome
 		f.advance(en[k])
 	}
 	f.c.releaseAll()
+	r.watch.Store(false)
+	r.wmu.Lock()
+	if len(r.lockedWrites) > 0 {
+		who := "a goroutine of the library"
+		if a := f.c.actorOf(r.lockedWrites[0]); a >= 0 {
+			who = fmt.Sprintf("actor %d (%s)", a, sc.Actors[a].Kind)
+		}
+		o.Problems = append(o.Problems, Problem{keyStateLock, fmt.Sprintf("%s entered a write to the connection while holding the session's state mutex (%d such writes in this scenario): if the peer is not reading, every reader of the session state — Serve's loop and token reader, State, SetCloseDeadline — blocks behind that write", who, len(r.lockedWrites))})
+	}
+	r.wmu.Unlock()
 	if !f.aborted {
 		st := r.s.State()
 		o.OCL, o.ICL = st&xmpp.OutputStreamClosed != 0, st&xmpp.InputStreamClosed != 0
